@@ -263,7 +263,7 @@ class VOGP(PALAlgorithm):
             z_init,
             method="SLSQP",
             constraints=cons,
-            options={"maxiter": 1000000, "ftol": 1e-30},
+            options={"maxiter": 1000000, "ftol": 1e-12},
         )
         norm = np.linalg.norm(res.x)
         construe = np.all(constraint_func(res.x) + 1e-14)
